@@ -17,7 +17,11 @@ EXPORT = ("component/outbound/dialer/zz_verif_c15_export.go", "harness/dialer/c1
 
 MS = 1000000
 HOUR = 3600 * 1000 * MS
-TYPES = ["(DDnsUdp, V4)", "(DDnsUdp, V6)", "(DTcp, V4)", "(DTcp, V6)", "(DDataUdp, V4)", "(DDataUdp, V6)"]
+TYPES = ["tU4", "tU6", "tT4", "tT6", "tD4", "tD6"]
+TYPE_DEFS = ("Definition tU4 : ntype := (DDnsUdp, V4).\nDefinition tU6 : ntype := (DDnsUdp, V6).\n"
+             "Definition tT4 : ntype := (DTcp, V4).\nDefinition tT6 : ntype := (DTcp, V6).\n"
+             "Definition tD4 : ntype := (DDataUdp, V4).\nDefinition tD6 : ntype := (DDataUdp, V6).\n"
+             + "".join("Definition d%d : nat := %d%%nat.\n" % (i, i) for i in range(8)))
 POLS = ["fixed", "random", "min", "min_avg10", "min_moving_avg"]
 MINPOLS = {"min": "MLast", "min_avg10": "MAvg10", "min_moving_avg": "MMoving"}
 
@@ -86,12 +90,31 @@ def gen_case(rng, big=False, allow_huge=True):
 
 
 # ------------------------------------------------------------------ Coq terms
+class ZPool:
+    """number notations are interpreted by running a Coq conversion function: name every distinct constant once"""
+
+    def __init__(self):
+        self.names = {}
+
+    def z(self, x):
+        if x not in self.names:
+            self.names[x] = "z%d" % len(self.names)
+        return self.names[x]
+
+    def header(self):
+        return "".join("Definition %s : Z := %s.\n" % (nm, str(x) if x >= 0 else "(%d)" % x) for x, nm in self.names.items())
+
+
+POOL = ZPool()
+
+
 def cz(x):
-    return str(x) if x >= 0 else "(%d)" % x
+    return POOL.z(x)
 
 
 def cnat(x):
-    return "%d%%nat" % x
+    assert 0 <= x < 8
+    return "d%d" % x
 
 
 def coz(has, x):
@@ -211,6 +234,8 @@ THM_CODES = (3, 7)
 
 
 def run_batch(sc, binary, cases, tag):
+    global POOL
+    POOL = ZPool()
     inp = sc.path("c15_%s.in" % tag)
     outp = sc.path("c15_%s.out" % tag)
     with open(inp, "w") as f:
@@ -236,7 +261,7 @@ def run_batch(sc, binary, cases, tag):
             terms.append(None)
     idx = [i for i, x in enumerate(terms) if x is not None]
     text = ("From Coq Require Import List ZArith Bool Arith NArith.\nFrom Dae Require Import C15_Spec C15_Model C15_Check.\n"
-            "Import ListNotations.\nOpen Scope Z_scope.\n"
+            "Import ListNotations.\nOpen Scope Z_scope.\n" + TYPE_DEFS + POOL.header() +
             "Definition cases : list obs_case := [\n" + ";\n".join(terms[i] for i in idx) + "\n].\n"
             "Definition R := Eval vm_compute in map check_case cases.\nPrint R.\n"
             "Definition S := Eval vm_compute in map case_signature cases.\nPrint S.\n")
@@ -258,52 +283,53 @@ def run_batch(sc, binary, cases, tag):
 
 
 def shrink(sc, binary, case, codes):
-    def fails(c):
-        errs, _, err = run_batch(sc, binary, [c], "shrink")
-        return err is None and any(code in codes for (_, code, _) in errs.get(0, []))
+    """batched greedy minimisation: all prefixes in one evaluation, then rounds of all single-op removals"""
+    def failing(cands):
+        if not cands:
+            return []
+        errs, _, err = run_batch(sc, binary, cands, "shrink")
+        if err is not None:
+            return []
+        return [k for k in range(len(cands)) if any(code in codes for (_, code, _) in errs.get(k, []))]
 
     cur = dict(case)
     ops = list(case["ops"])
-    lo, hi = 1, len(ops)
-    # shortest failing prefix (failure is detected at a step, so prefixes are monotone)
-    while lo < hi:
-        mid = (lo + hi) // 2
-        if fails(dict(cur, ops=ops[:mid])):
-            hi = mid
-        else:
-            lo = mid + 1
-    ops = ops[:hi]
-    rounds = 0
-    changed = True
-    while changed and rounds < 120:
-        changed = False
-        for i in range(len(ops) - 1, -1, -1):
-            rounds += 1
-            cand = ops[:i] + ops[i + 1:]
-            if cand and fails(dict(cur, ops=cand)):
-                ops = cand
-                changed = True
-                break
+    f = failing([dict(cur, ops=ops[:k]) for k in range(1, len(ops) + 1)])
+    if f:
+        ops = ops[:f[0] + 1]
+    for _ in range(12):
+        cands = [dict(cur, ops=ops[:i] + ops[i + 1:]) for i in range(len(ops)) if len(ops) > 1]
+        f = failing(cands)
+        if not f:
+            break
+        ops = cands[f[-1]]["ops"]
     cur["ops"] = ops
     # simplify parameters
+    cands = []
     for i in range(len(cur["offs"])):
         if cur["offs"][i] != 0:
-            cand = dict(cur, offs=cur["offs"][:i] + [0] + cur["offs"][i + 1:])
-            if fails(cand):
-                cur = cand
-    if cur["tol"] != 0 and fails(dict(cur, tol=0)):
-        cur = dict(cur, tol=0)
-    for j, op in enumerate(cur["ops"]):
-        if op["k"] == "select" and op.get("draws", 1) > 1:
-            pass
+            cands.append(dict(cur, offs=cur["offs"][:i] + [0] + cur["offs"][i + 1:]))
+    if cur["tol"] != 0:
+        cands.append(dict(cur, tol=0))
+    for _ in range(4):
+        f = failing(cands)
+        if not f:
+            break
+        cur = cands[f[0]]
+        cands = []
+        for i in range(len(cur["offs"])):
+            if cur["offs"][i] != 0:
+                cands.append(dict(cur, offs=cur["offs"][:i] + [0] + cur["offs"][i + 1:]))
+        if cur["tol"] != 0:
+            cands.append(dict(cur, tol=0))
     return cur
 
 
 def matchers_for(case):
     """ids describing the class of a minimised failing input (for known_findings.txt)"""
     ids = []
-    big = any(o >= HOUR - max(case["tol"], 0) for o in case["offs"]) or \
-        any(op.get("lat", 0) + max(case["offs"]) >= HOUR - max(case["tol"], 0) for op in case["ops"] if op["k"] in ("sample", "silent"))
+    lats = [op.get("lat", 0) for op in case["ops"] if op["k"] in ("sample", "silent")]
+    big = bool(case["offs"]) and max(case["offs"]) + max(lats + [0]) >= HOUR
     if big:
         ids.append("sorting-latency-ge-1h")
     ids.append("ops-" + "-".join(sorted(set(op["k"] for op in case["ops"]))))
@@ -314,7 +340,7 @@ def main(argv):
     args = vlib.main_args(argv)
     out = vlib.Outcome(PID, args.tier, args.seed)
     rng = vlib.rng_for(args.seed, PID)
-    n_cases = 400 if args.tier == "quick" else 8000
+    n_cases = 300 if args.tier == "quick" else 8000
 
     proof_ok, pinfo = vlib.proof_stage(out, PROPS, TARGETS)
     cov = {"obligations": pinfo["obligations"], "discharged": pinfo["discharged"],
@@ -383,25 +409,26 @@ def main(argv):
         spec_fail = sorted(i for i, e in all_err.items() if has(e, SPEC_CODES))
         model_fail = sorted(i for i, e in all_err.items() if has(e, MODEL_CODES))
         thm_fail = sorted(i for i, e in all_err.items() if has(e, THM_CODES))
-        reported_classes = set()
-        n_reported = 0
+        # one report per class of failing input; classes not matching the >= 1 h latency corner come first
+        classes = {}
         for i in spec_fail:
+            classes.setdefault(tuple(matchers_for(cases[i])[:-1]), []).append(i)
+        n_reported = 0
+        for cls in sorted(classes, key=lambda k: (len(k), k)):
             if n_reported >= 3:
                 break
+            i = classes[cls][0]
             codes = tuple(sorted(set(code for (_, code, _) in all_err[i] if code in SPEC_CODES)))
-            pre_class = (codes, tuple(matchers_for(cases[i])[:-1]))
-            if pre_class in reported_classes:
-                continue
-            reported_classes.add(pre_class)
             small = shrink(sc, binary, cases[i], codes) if 9 not in codes else cases[i]
             errs, _, _ = run_batch(sc, binary, [small], "final")
             ms = matchers_for(small)
             what = ", ".join(CODE_NAMES[c] for c in codes)
-            r = out.violation("impl_vs_spec_%d" % n_reported,
-                              {"case": small, "errors": (errs or {}).get(0), "error_codes": CODE_NAMES, "matchers": ms,
-                               "original_case_index": i,
-                               "how": "feed `case` (one JSON line) to TestVerifC15 via VERIF_IN; error (step, code): the step counts model-level operations, code 6 = selection result not allowed by C15_Spec.select_ok, code 2 = set state not allowed (alive view / within_tol / switch_ok)"},
-                              "%s on this history (%d failing histories in total)" % (what, len(spec_fail)), matchers=ms)
+            out.violation("impl_vs_spec_%d" % n_reported,
+                          {"case": small, "errors": (errs or {}).get(0), "error_codes": CODE_NAMES, "matchers": ms,
+                           "original_case_index": i, "failing_histories_in_class": len(classes[cls]),
+                           "how": "feed `case` (one JSON line) to TestVerifC15 via VERIF_IN; error (step, code): the step counts model-level operations, code 6 = selection result not allowed by C15_Spec.select_ok, code 2 = set state not allowed (alive view / within_tol / switch_ok)"},
+                          "%s on this history (%d failing histories in this class, %d in total)" % (what, len(classes[cls]), len(spec_fail)),
+                          matchers=ms)
             n_reported += 1
         if not spec_fail and (model_fail or thm_fail or tie_broken or not proof_ok):
             what = {}
